@@ -35,7 +35,11 @@ pub fn install_panic_hook() {
             .location()
             .map(|l| {
                 let f = l.file();
-                let f = f.strip_prefix("/repo/").unwrap_or(f);
+                // library sources are reported relative to the repository root
+                let f = match f.find("/src/") {
+                    Some(i) if !f.contains("/gsim/") && !f.starts_with("/rustc") && !f.contains("/.cargo/") => &f[i + 1..],
+                    _ => f,
+                };
                 format!("{}:{}", f, l.line())
             })
             .unwrap_or_default();
